@@ -225,6 +225,16 @@ def gen_cases(tier, seed):
             if tier == "quick" and any(b != "1" for b in bits[8:10]):
                 continue
             cs.append(Case("ids_" + c.cid, c.drv, c.args, "concurrent-opens-" + c.kind, True))
+    # a frame for ANOTHER stream (FIN for an id that was never opened, FIN / data for a neighbour) handled while this
+    # stream's open_stream is between its two table inserts must not take this stream's inbound queue away (seed C02-4):
+    # task 1 opens and reads, task 2 opens, task 3 feeds; every position of the foreign frame among the first steps of task 1
+    from .conc_common import render, drain_suffix
+    for foreign in (["F:fin:7"], ["F:fin:2"], ["F:psh:2", "F:fin:2"], ["F:sa:7:1", "F:fin:7"]):
+        progs = [[], ["O", "B0", "R"], ["O"], foreign + ["F:psh:1"]]
+        for pos in range(0, 6):
+            pre2 = r.choice([0, 2, 3, 12])
+            sched = [2] * pre2 + [1] * pos + [3] * len(foreign) + [1] * (14 - pos) + [3] + [1, 2] * 12 + drain_suffix(4, 6)
+            cs.append(Case("hr%d" % len(cs), "conc", render("plain", progs, sched), "foreign-frame-during-open", True, {"expect_t1": "ok,ok,data"}))
     return cs
 
 
@@ -244,6 +254,12 @@ def oracle(c, ir):
         data_sids = {f.split(".")[1] for _, fr in o["bursts"] for f in fr if f.split(".")[0] == "2"}
         if not data_sids <= set(syns):
             return "data for stream(s) %s that were never opened" % sorted(data_sids - set(syns))
+        want = (c.meta or {}).get("expect_t1")
+        if want:
+            pc, res = o["tasks"].get(1, ("?", []))
+            if pc != "done" or ",".join(res) != want:
+                return ("stream of task 1: the peer's data frame was fed after the open had completed, yet the reader got %s (state %s), expected %s: "
+                        "a frame addressed to another stream disturbed this one" % (res, pc, want))
         return None
     if c.drv != "ss":
         return "unknown driver"
